@@ -91,6 +91,11 @@ def description_texts():
             post = "}\n" * indent
             ind = "\t" * indent
             out.append(pre + "".join(ind + l + "\n" for l in body.split("\n") if l) + post)
+    # words that begin with a tab / NBSP / U+2028 around the re-flow boundary
+    for ws in ("\t", "\u00a0", "\u2028", " \t"):
+        for n in (70, 76, 78, 80, 82):
+            out.append("| " + "x" * (n - 8) + " " + "y" * 6 + " " + ws + "zz qq\n")
+            out.append("b {\n\t| " + "x" * (n - 12) + " " + "y" * 6 + " " + ws + "zz qq\n}\n")
     # empty description lines in every position of a short block, already-canonical and not
     for n in range(1, 5):
         for mask in range(2 ** n):
@@ -159,14 +164,22 @@ def run(chk):
                     "21 token types and pruned sequences of <= 6 (thorough 7-8) tokens from the token-level machine BclParser, plus simulated long "
                     "sequences; (c) fixture files with single-token deletions/insertions/swaps and random Unicode strings. "
                     "non-trivial = non-empty input; distinct by (fail-fast, text)")
-        for cfg in (["BclLexer_full3.cfg", "BclLexer_quot4.cfg"] if quick else ["BclLexer_full4.cfg", "BclLexer_quot5.cfg", "BclLexer_quot6.cfg"]):
-            r = chk.tlc("BclLexerMC.tla", cfg, cfg[:-4], workers=W, timeout=3000)
-            note_model(chk, r, cfg)
-            lex_cases += r.cases
-        r = chk.tlc("BclLexerMC.tla", "BclLexer_sim.cfg", "lexsim", workers=1 if quick else 8, simulate=300 if quick else 2500, depth=200,
-                    seed=seed, timeout=1500)
-        note_model(chk, r, "lexer simulation")
-        lex_cases += r.cases
+        lex_events = []
+
+        def lex_batch(r, name):
+            """replay one configuration's cases right away (memory: thorough configurations emit ~10^6 cases)"""
+            note_model(chk, r, name)
+            cs = r.cases
+            r.cases = []
+            rs = chk.replay("bcl-lex", cs, name, workers=W, timeout="20s")
+            chk.absorb("bcl-lex", cs, rs)
+            ev = events_of(rs, "lex")
+            rng.shuffle(ev)
+            lex_events.extend(ev[:20000])
+        for cfg in (["BclLexer_full3.cfg", "BclLexer_quot4.cfg"] if quick else ["BclLexer_full4c.cfg", "BclLexer_quot5.cfg"]):
+            lex_batch(chk.tlc("BclLexerMC.tla", cfg, cfg[:-4], workers=W, timeout=3000), cfg[:-4])
+        lex_batch(chk.tlc("BclLexerMC.tla", "BclLexer_sim.cfg", "lexsim", workers=1 if quick else 8, simulate=300 if quick else 2500, depth=200,
+                          seed=seed, timeout=1500), "lexsim")
         for cfg in (["BclParser_all3.cfg", "BclParser_pruned5.cfg"] if quick else ["BclParser_all4.cfg", "BclParser_pruned6.cfg"]):
             r = chk.tlc("BclParserMC.tla", cfg, cfg[:-4], workers=W, timeout=3000)
             note_model(chk, r, cfg)
@@ -220,16 +233,14 @@ def run(chk):
     chk.absorb("bcl-toks", raw, res_r)
     res_l = []
     if prop == "C11":
-        res_l = chk.replay("bcl-lex", lex_cases, "lex", workers=W, timeout="20s")
-        chk.absorb("bcl-lex", lex_cases, res_l)
         rawlex = [{"raw": c["text"], "ff": bool(i % 2)} for i, c in enumerate(raw) if len(c["text"]) < 3000]
         res_rl = chk.replay("bcl-lex", rawlex, "rawlex", workers=W, timeout="20s")
         chk.absorb("bcl-lex", rawlex, res_rl)
-        res_l = res_l + res_rl
+        res_l = res_rl
     # ---------------- direction T ----------------
     lim = 3000 if quick else 30000
     if prop == "C11":
-        ev = events_of(res_l, "lex")
+        ev = lex_events + events_of(res_l, "lex")
         rng.shuffle(ev)
         # keep traces small enough for one TLC run: bound total symbols
         sel, budget = [], (60000 if quick else 600000)
